@@ -1,5 +1,5 @@
 (* C15 — Status event registers latch filtered condition transitions until read. *)
-From VF Require Import Base Status StatusSpec Status_proofs Contrib ContribSpec Contrib_proofs.
+From VF Require Import Base Status StatusSpec Status_proofs Contrib ContribSpec Contrib_proofs Grammar MessageSpec ContribMeaning ContribMeaning_proofs.
 Open Scope N_scope.
 
 (* For ANY history of condition updates (arbitrary values), filter/enable writes, queries, *CLS
@@ -64,6 +64,23 @@ Theorem C15_full_stack_refines_iff : forall d,
   <-> queue_printable d = true.
 Proof. exact contrib_refines_ops_iff. Qed.
 
+(* ... and for EVERY well-formed program message addressed to the mandated tree, in any spelling (short / long
+   mnemonics, any case, absolute or relative headers, default nodes spelled or omitted, any layout) and with any data
+   elements (right, wrong, missing, too many): [message_ops m] (ContribMeaning.v) reads the message as a list of
+   operations through the designation relation of HeaderSpec.v, and in every state reachable from power-on the full
+   stack computes the operation-level result: same device state, same returned error, same response bytes (up to
+   one unit separator left in the buffer of a message that FAILS on the query form of a command without one,
+   characterised exactly by [stray_separator]). *)
+Theorem C15_full_stack_all_messages : forall ms (m : msg) (mav : bool) (us : list sop),
+  wf_msg m = true -> message_ops m = Some us ->
+  dev_message (session_msgs dev_init ms) mav (render_msg m)
+  = Val (with_stray m (op_message (session_msgs dev_init ms) mav us)).
+Proof. exact contrib_refines_ops_sep_session. Qed.
+Theorem C15_full_stack_all_messages_exact : forall (m : msg) (mav : bool) (d : dev) (us : list sop),
+  wf_msg m = true -> queue_printable d = true -> message_ops m = Some us ->
+  (dev_message d mav (render_msg m) = Val (op_message d mav us) <-> stray_separator m = false).
+Proof. exact contrib_refines_ops_all_iff. Qed.
+
 Print Assumptions C15_event_latched.
 Print Assumptions C15_event_read_clears.
 Print Assumptions C15_other_reads_pure.
@@ -73,3 +90,5 @@ Print Assumptions C15_low_bits_faithful.
 Print Assumptions C15_preset_values.
 Print Assumptions C15_full_stack_refines.
 Print Assumptions C15_full_stack_refines_iff.
+Print Assumptions C15_full_stack_all_messages.
+Print Assumptions C15_full_stack_all_messages_exact.
